@@ -387,6 +387,13 @@ pub fn run_range(_tier: &str, seed: u64, lo: u64, hi: u64) -> Report {
     let trace = std::env::var("YV_TRACE").is_ok();
     let mut rep = Report::default();
     let mut model = crate::model::Model::spawn();
+    // nested scopes against the Coq transcription of nested redo (Crdt/Redo.v): one history per 10 case indexes
+    for ci in lo..hi { if ci % 10 != 0 { continue; }
+        match catch(std::panic::AssertUnwindSafe(|| { let mut r2 = Report::default(); crate::rdo::case(seed, ci / 10, &mut model, &mut r2); r2 })) {
+            Ok(r2) => rep.merge(r2),
+            Err(e) => { rep.evaluations += 1; model = crate::model::Model::spawn(); rep.fail(json!({"property": "C12", "class": "panic", "error": e, "case": {"stream": 125, "index": ci / 10, "seed": seed}})); }
+        }
+    }
     if lo == 0 { if let Err(e) = catch(std::panic::AssertUnwindSafe(|| fixed_nested_cases(&mut rep))) { rep.fail(json!({"property": "C12", "class": "panic", "error": e, "case": {"stream": 124, "index": 0}})); } }
     for ci in lo..hi {
         if let Ok(o) = std::env::var("YV_ONLY") { if o.parse::<u64>().ok() != Some(ci) { continue; } }
